@@ -473,56 +473,52 @@ Definition overflows (m : N) (nd : Z) (e : Z) : bool :=     (* nd = number of di
 
 (* strconv.ParseFloat(s, 64) restricted to decimal syntax: Some (neg, mantissa, exp10) / None = error.
    Not modelled (None): hex floats "0x..p..", "inf", "infinity", "nan". *)
+Definition pf_body (neg : bool) (s body : bytes) : option (bool * N * Z) :=
+  let '(d1, us1, r1) := span_du body in
+  let '(d2, us2, r2, dot) :=
+    match r1 with
+    | cd :: t => if cd =? 46 then let '(d2, us2, r2) := span_du t in (d2, us2, r2, true)
+                 else ([], false, r1, false)
+    | [] => ([], false, r1, false)
+    end in
+  match d1 ++ d2 with
+  | [] => None                                        (* !sawdigits *)
+  | _ =>
+    let ds := d1 ++ d2 in
+    let m := dval 0 ds in
+    let fin (us : bool) (e : Z) :=
+      if us && negb (underscore_ok s) then None
+      else let e10 := (e - Z.of_nat (length d2))%Z in
+           if overflows m (Z.of_nat (length ds)) e10 then None else Some (neg, m, e10) in
+    match r2 with
+    | [] => fin (us1 || us2) 0%Z
+    | ce :: te =>
+      if (ce =? 101) || (ce =? 69) then
+        match te with
+        | [] => None
+        | sg :: te' =>
+          let eneg := sg =? 45 in
+          let edig := if is_sign sg then te' else te in
+          match edig with
+          | [] => None
+          | d0 :: _ =>
+            if is_digit d0 then
+              let '(de, use, re) := span_du edig in
+              match re with
+              | [] => let e := eval_sat de in fin (us1 || us2 || use) (if eneg then - e else e)%Z
+              | _ => None
+              end
+            else None
+          end
+        end
+      else None
+    end
+  end.
+
 Definition parse_float (s : bytes) : option (bool * N * Z) :=
   match s with
   | [] => None
-  | c0 :: t0 =>
-    let neg := c0 =? 45 in
-    let body := if is_sign c0 then t0 else s in
-    let '(d1, us1, r1) := span_du body in
-    let '(d2, us2, r2, dot) :=
-      match r1 with
-      | cd :: t => if cd =? 46 then let '(d2, us2, r2) := span_du t in (d2, us2, r2, true)
-                   else ([], false, r1, false)
-      | [] => ([], false, r1, false)
-      end in
-    match d1 ++ d2 with
-    | [] => None                                        (* !sawdigits *)
-    | ds =>
-      let m := dval 0 ds in
-      let fin (e : Z) :=
-        if (us1 || us2) && negb (underscore_ok s) then None
-        else let e10 := (e - Z.of_nat (length d2))%Z in
-             if overflows m (Z.of_nat (length ds)) e10 then None else Some (neg, m, e10) in
-      match r2 with
-      | [] => fin 0%Z
-      | ce :: te =>
-        if (ce =? 101) || (ce =? 69) then
-          match te with
-          | [] => None
-          | sg :: te' =>
-            let eneg := sg =? 45 in
-            let edig := if is_sign sg then te' else te in
-            match edig with
-            | [] => None
-            | d0 :: _ =>
-              if is_digit d0 then
-                let '(de, use, re) := span_du edig in
-                match re with
-                | [] =>
-                  if (us1 || us2 || use) && negb (underscore_ok s) then None
-                  else
-                    let e := eval_sat de in
-                    let e10 := ((if eneg then - e else e) - Z.of_nat (length d2))%Z in
-                    if overflows m (Z.of_nat (length ds)) e10 then None else Some (neg, m, e10)
-                | _ => None
-                end
-              else None
-            end
-          end
-        else None
-      end
-    end
+  | c0 :: t0 => pf_body (c0 =? 45) s (if is_sign c0 then t0 else s)
   end.
 
 (* parse.go:parseFloat : None = (nil, nil) "skip junk" *)
@@ -560,6 +556,9 @@ Definition lookahead (s : bytes) : option (Z * bytes) :=
 
 Definition has_dot_comma (s : bytes) : bool := existsb (fun c => (c =? 46) || (c =? 44)) s.
 
+Definition float_or_null (str l1 : bytes) : obj * bytes :=
+  match parse_float_tok str with Some (n, m, e) => (OReal n m e, l1) | None => (ONull, l1) end.
+
 (* parse.go:parseNumericOrIndRef on a non-empty line: (object, new line) *)
 Definition parse_numeric (l : bytes) : obj * bytes :=
   let sp := tok_split (in_set set_num1) l in
@@ -572,9 +571,8 @@ Definition parse_numeric (l : bytes) : obj * bytes :=
   match atoi str with
   | ARange =>
     if negb (has_dot_comma str) then (OInt 0, l1)    (* #407 *)
-    else match parse_float_tok str with Some (n, m, e) => (OReal n m e, l1) | None => (ONull, l1) end
-  | ASyntax =>
-    match parse_float_tok str with Some (n, m, e) => (OReal n m e, l1) | None => (ONull, l1) end
+    else float_or_null str l1
+  | ASyntax => float_or_null str l1
   | AOk i =>
     if negb pos then (OInt i, l1)
     else match l1 with
